@@ -50,7 +50,11 @@ try:
 finally:
     shutil.rmtree(d, ignore_errors=True)
 notes = (src / "notes.md").read_text() if (src / "notes.md").exists() else ""
-meta["breaks"] = notes.strip().splitlines()[0][:300] if notes.strip() else ""
+meta["breaks"] = pid + " (statement in /verif/properties.jsonl; mechanism in notes.md)"
+import re as _re
+_lines = notes.splitlines()
+_idx = next((i for i, l in enumerate(_lines) if _re.search(r"(what it needs|needs to manifest|needs in order|needs:|\*\*needs|trigger|manifests? (only )?(when|for|if)|in order to manifest)", l.lower())), None)
+meta["needs_to_manifest"] = " ".join(x.strip() for x in _lines[_idx:_idx + 14] if x.strip())[:700] if _idx is not None else "see notes.md"
 meta["ran"] = "tools/seed_import.py: demo on clean copy; patch -p1; repo suite at a virtual noon with PYTHONPATH=<copy>/src; demo with change; ./check <id> --tier quick with VERIF_REPO=<copy>"
 confirmed = meta["demo_on_clean_tree"] == "pass" and meta["patch_applies"] and t["ok"] and meta["demo_with_change"] == "fail"
 meta["confirmed"] = confirmed
